@@ -249,6 +249,105 @@ func main() {
 	if unaryPrec < 0 || len(levels) == 0 {
 		die("precedence structure not recognised")
 	}
+	// the operator tokens accepted at each level, as their literal texts (LiteralNames), and the lexer's
+	// punctuation literals in token order
+	tokNum := map[string]int{}
+	for _, m := range regexp.MustCompile(`(?m)^\tGoExpression([A-Za-z_0-9]+)\s+= (\d+)$`).FindAllStringSubmatch(string(src), -1) {
+		n, _ := strconv.Atoi(m[2])
+		tokNum[m[1]] = n
+	}
+	var literalNames []string
+	if m := regexp.MustCompile(`(?s)staticData\.LiteralNames = (\[\]string\{.*?\n\t\})`).FindSubmatch(src); m != nil {
+		if e, err := parser.ParseExpr(string(m[1])); err == nil {
+			if cl, ok := e.(*ast.CompositeLit); ok {
+				for _, el := range cl.Elts {
+					if bl, ok := el.(*ast.BasicLit); ok {
+						v, _ := strconv.Unquote(bl.Value)
+						literalNames = append(literalNames, strings.Trim(v, "'"))
+					}
+				}
+			}
+		}
+	}
+	if len(tokNum) == 0 || len(literalNames) == 0 {
+		die("token constants / LiteralNames of goexpression_parser.go not recognised")
+	}
+	lit := func(n int) string {
+		if n < 0 || n >= len(literalNames) || literalNames[n] == "" {
+			die("token %d has no literal name", n)
+		}
+		return literalNames[n]
+	}
+	opRe := regexp.MustCompile(`\(int64\(\(_la-(\d+)\)\) & \^0x3f\) == 0 && \(\(int64\(1\)<<\(_la-\d+\)\)&(-?\d+)\) != 0|\(int64\(_la\) & \^0x3f\) == 0 && \(\(int64\(1\)<<_la\)&(-?\d+)\) != 0|p\.Match\(GoExpression([A-Za-z_0-9]+)\)|_la == GoExpression([A-Za-z_0-9]+)((?: \|\| _la == GoExpression[A-Za-z_0-9]+)*)`)
+	predRe := regexp.MustCompile(`p\.Precpred\(p\.GetParserRuleContext\(\), (\d+)\)\)\s*\{`)
+	var levelOps [][]string
+	for _, loc := range predRe.FindAllStringIndex(body, -1) {
+		rest := body[loc[1]:]
+		if i := strings.Index(rest, "p.expression("); i >= 0 {
+			rest = rest[:i]
+		}
+		m := opRe.FindStringSubmatch(rest)
+		if m == nil {
+			die("operator test of a precedence level not recognised: %q", rest)
+		}
+		var ops []string
+		mask := func(base int, bits string) {
+			sv, _ := strconv.ParseInt(bits, 10, 64)
+			v := uint64(sv)
+			for i := 0; i < 64; i++ {
+				if v&(1<<uint(i)) != 0 {
+					ops = append(ops, lit(base+i))
+				}
+			}
+		}
+		switch {
+		case m[2] != "":
+			b, _ := strconv.Atoi(m[1])
+			mask(b, m[2])
+		case m[3] != "":
+			mask(0, m[3])
+		case m[4] != "":
+			ops = append(ops, lit(tokNum[m[4]]))
+		default:
+			ops = append(ops, lit(tokNum[m[5]]))
+			for _, x := range regexp.MustCompile(`GoExpression([A-Za-z_0-9]+)`).FindAllStringSubmatch(m[6], -1) {
+				ops = append(ops, lit(tokNum[x[1]]))
+			}
+		}
+		levelOps = append(levelOps, ops)
+	}
+	if len(levelOps) != len(levels) {
+		die("operator sets and precedence levels do not line up")
+	}
+	// unary operators: the token-set test that follows "unary_op = _lt"
+	var unaryOps []string
+	if i := strings.Index(body, "unary_op = _lt"); i >= 0 {
+		if m := opRe.FindStringSubmatch(body[i:]); m != nil && (m[2] != "" || m[3] != "") {
+			base, bits := 0, m[3]
+			if m[2] != "" {
+				base, _ = strconv.Atoi(m[1])
+				bits = m[2]
+			}
+			sv, _ := strconv.ParseInt(bits, 10, 64)
+			for k := 0; k < 64; k++ {
+				if uint64(sv)&(1<<uint(k)) != 0 {
+					unaryOps = append(unaryOps, lit(base+k))
+				}
+			}
+		}
+	}
+	if len(unaryOps) == 0 {
+		die("unary operator case of expression(_p) not recognised")
+	}
+	// punctuation literals of the lexer in token order: from '(' to the last literal
+	var punctLits []string
+	if from, ok := tokNum["L_PAREN"]; ok {
+		for n := from; n < len(literalNames); n++ {
+			punctLits = append(punctLits, lit(n))
+		}
+	} else {
+		die("token L_PAREN not found")
+	}
 
 	var sb strings.Builder
 	sb.WriteString("(* GENERATED by tools/factgen from the Go sources of pub-go/tpl — do not edit. *)\n")
@@ -293,6 +392,21 @@ func main() {
 		fmt.Fprintf(&sb, "(%d, [%s])", l.pred, strings.Join(ops, "; "))
 	}
 	sb.WriteString("]%nat.\n")
+	sb.WriteString("(* the operator literals accepted at each of these levels (decoded from the token-set tests), the unary operators,\n   and the lexer's punctuation literals in token order (LiteralNames) *)\n")
+	sb.WriteString("Definition level_ops : list (nat * list (list N)) :=\n  [")
+	for i, l := range levels {
+		if i > 0 {
+			sb.WriteString(";\n   ")
+		}
+		var xs []string
+		for _, o := range levelOps[i] {
+			xs = append(xs, coqStr(o))
+		}
+		fmt.Fprintf(&sb, "(%d%%nat, [%s])", l.pred, strings.Join(xs, "; "))
+	}
+	sb.WriteString("].\n")
+	list("unary_ops", unaryOps)
+	list("punct_literals", punctLits)
 	out := sb.String()
 	old, err := os.ReadFile(outPath)
 	if err == nil && string(old) == out {
